@@ -1504,7 +1504,7 @@ var jweSers = []string{"compact", "json+aad", "json", "json+aad0"}
 
 func run(c *hl.Ctx) {
 	initKeys()
-	c.Rule("Matrix, exhaustive: every (signature alg x key variant x payload size x serialisation) and every (key-management alg [x curve x key variant] x content encryption x zip x plaintext size x serialisation) is signed/encrypted, serialised, parsed and verified/decrypted once, also with a different key of the same kind and a key of another kind, and re-checked by an independent RFC 7515/7516/7518 implementation; reference-built objects go the other way. Fault enumeration: for every object at the tamper sizes, each octet-string field (protected, payload/ciphertext, iv, tag, encrypted_key, signature, aad) is base64url-decoded, one bit is flipped, the field re-encoded and the object re-assembled, parsed and verified/decrypted with the right key (thorough: every bit of every field of every object; quick: every bit for one designated combination per (alg family x enc family); for the rest the first and last bit of every octet of fields up to 64 octets and of the first 32, last 32 and every 8th octet of longer fields, key variant 0 only, DEF only with the compact serialisation, and for recipients that are not the first of their family only A192CBC-HS384 and A256GCM without compression). One evaluation = one matrix cell or one flipped object. Non-trivial = a matrix cell whose object round-tripped to exactly the payload and passed the reference, or a flipped object that the parser still accepted, so that rejection had to come from the cryptographic check (flips the parser rejects are counted separately as tamper_rejected_by_parser). Distinctness key = (part, alg, curve, key, enc, zip, size, serialisation[, field, bit]).")
+	c.Rule("Matrix, exhaustive: every (signature alg x key variant x payload size x serialisation) and every (key-management alg [x curve x key variant] x content encryption x zip x plaintext size x serialisation) is signed/encrypted, serialised, parsed and verified/decrypted once, also with a different key of the same kind and a key of another kind, and re-checked by an independent RFC 7515/7516/7518 implementation; reference-built objects go the other way. Fault enumeration: for every object at the tamper sizes, each octet-string field (protected, payload/ciphertext, iv, tag, encrypted_key, signature, aad) is base64url-decoded, one bit is flipped, the field re-encoded and the object re-assembled, parsed and verified/decrypted with the right key (thorough: every bit of every field of every object at the tamper sizes, the 256-octet plaintext only uncompressed and compact; quick: every bit for every signed object except ES384/ES512 and for one designated encrypted combination per (alg family x enc family); for the rest the first and last bit of every octet of fields up to 64 octets and of the first 32, last 32 and every 8th octet of longer fields, key variant 0 only, DEF only with the compact serialisation, and for recipients that are not the first of their family only A192CBC-HS384 and A256GCM without compression). One evaluation = one matrix cell or one flipped object. Non-trivial = a matrix cell whose object round-tripped to exactly the payload and passed the reference, or a flipped object that the parser still accepted, so that rejection had to come from the cryptographic check (flips the parser rejects are counted separately as tamper_rejected_by_parser). Distinctness key = (part, alg, curve, key, enc, zip, size, serialisation[, field, bit]).")
 	c.Assume("Go standard library primitives (AES, SHA-2, HMAC, RSA, ECDSA, GCM, DEFLATE, math/big) are correct",
 		"ECDSA, PSS, OAEP, CEK, IV and ephemeral-key randomness comes from crypto/rand and is not pinned: oracles are round trip and rejection, never byte equality of randomised output; one object per matrix cell",
 		"the reference (verif/ref/joseref) passes the RFC 7518 B.1-B.3, RFC 3394 4.1/4.6 and RFC 7518 appendix C vectors (go test ./ref/joseref)",
@@ -1556,57 +1556,6 @@ func run(c *hl.Ctx) {
 							return
 						}
 						runJWECase(c, caseT{Part: "jwe", Alg: string(r.alg.name), Curve: r.curve, KeyVar: r.variant, Enc: string(enc), Zip: zip, Size: n, Ser: ser})
-					}
-				}
-			}
-		}
-	}
-	// ---- fault enumeration on fresh objects of the tamper cells (own running
-	// index, so that the heavy cells spread evenly over the shards)
-	for _, a := range sigAlgs {
-		for v := 0; v < a.nkeys; v++ {
-			for _, ser := range []string{"compact", "json"} {
-				for _, n := range pl.tamperSizesJWS {
-					if !mine() {
-						continue
-					}
-					if c.Expired() {
-						return
-					}
-					cs := caseT{Part: "jws", Alg: string(a.name), Curve: a.curve, KeyVar: v, Size: n, Ser: ser, Tamper: 2}
-					if c.Quick() && !(n == 17 && ser == "json" && v == 0 && a.bits == 256) {
-						cs.Tamper = 1
-					}
-					runJWSCase(c, cs)
-				}
-			}
-		}
-	}
-	for _, r := range recipients() {
-		if c.Quick() && r.variant != 0 {
-			continue
-		}
-		for _, enc := range encs {
-			for _, zip := range []string{"", "DEF"} {
-				for _, ser := range []string{"compact", "json+aad"} {
-					for _, n := range pl.tamperSizesJWE {
-						if !mine() {
-							continue
-						}
-						if c.Expired() {
-							return
-						}
-						if c.Quick() && zip != "" && ser != "compact" {
-							continue
-						}
-						if c.Quick() && !r.first && (zip != "" || (enc != jose.A192CBC_HS384 && enc != jose.A256GCM)) {
-							continue
-						}
-						cs := caseT{Part: "jwe", Alg: string(r.alg.name), Curve: r.curve, KeyVar: r.variant, Enc: string(enc), Zip: zip, Size: n, Ser: ser, Tamper: 2}
-						if c.Quick() && !(r.first && n == 17 && ser == "json+aad" && zip == "" && (enc == jose.A128CBC_HS256 || enc == jose.A128GCM)) {
-							cs.Tamper = 1
-						}
-						runJWECase(c, cs)
 					}
 				}
 			}
@@ -1716,6 +1665,60 @@ func run(c *hl.Ctx) {
 	}
 	// ---- acme
 	runACME(c, mine)
+	// ---- fault enumeration on fresh objects of the tamper cells (own running
+	// index, so that the heavy cells spread evenly over the shards)
+	for _, a := range sigAlgs {
+		for v := 0; v < a.nkeys; v++ {
+			for _, ser := range []string{"compact", "json"} {
+				for _, n := range pl.tamperSizesJWS {
+					if !mine() {
+						continue
+					}
+					if c.Expired() {
+						return
+					}
+					cs := caseT{Part: "jws", Alg: string(a.name), Curve: a.curve, KeyVar: v, Size: n, Ser: ser, Tamper: 2}
+					if c.Quick() && (a.curve == 384 || a.curve == 521) {
+						cs.Tamper = 1 // P-384/P-521 verifications are slow; every bit in the thorough tier
+					}
+					runJWSCase(c, cs)
+				}
+			}
+		}
+	}
+	for _, r := range recipients() {
+		if c.Quick() && r.variant != 0 {
+			continue
+		}
+		for _, enc := range encs {
+			for _, zip := range []string{"", "DEF"} {
+				for _, ser := range []string{"compact", "json+aad"} {
+					for _, n := range pl.tamperSizesJWE {
+						if !mine() {
+							continue
+						}
+						if c.Expired() {
+							return
+						}
+						if c.Quick() && zip != "" && ser != "compact" {
+							continue
+						}
+						if n == 256 && (zip != "" || ser != "compact") {
+							continue // long ciphertexts: once per (recipient, enc)
+						}
+						if c.Quick() && !r.first && (zip != "" || (enc != jose.A192CBC_HS384 && enc != jose.A256GCM)) {
+							continue
+						}
+						cs := caseT{Part: "jwe", Alg: string(r.alg.name), Curve: r.curve, KeyVar: r.variant, Enc: string(enc), Zip: zip, Size: n, Ser: ser, Tamper: 2}
+						if c.Quick() && !(r.first && n == 17 && ser == "json+aad" && zip == "" && (enc == jose.A128CBC_HS256 || enc == jose.A128GCM)) {
+							cs.Tamper = 1
+						}
+						runJWECase(c, cs)
+					}
+				}
+			}
+		}
+	}
 
 	if c.Mine(1) {
 		c.Sample(map[string]interface{}{"part": "jwk", "key": "P-521 d=" + fmt.Sprint(keys.ec[521][0].d), "json": func() string {
